@@ -429,7 +429,7 @@ void ctx_touch(const void* addr)
     log_event(K_CTX, foreign ? 1 : 0, 0);
 }
 
-LexAnswer lex(int64_t pos, int line, int col, bool verbose)
+LexAnswer lex(int64_t pos, int line, int col, bool verbose, int64_t end_pos)
 {
     RtGuard g;
     OpRec* o = cur();
@@ -445,7 +445,7 @@ LexAnswer lex(int64_t pos, int line, int col, bool verbose)
                 if (a.idx >= 0 && a.len >= 1 && pos + a.len <= o->buf_len) ans = a;
                 break;
             }
-    o->lexes.push_back(OpRec::Lex{ pos, line, col, ans.idx, ans.len, g_seq, verbose ? 1 : 0 });
+    o->lexes.push_back(OpRec::Lex{ pos, line, col, ans.idx, ans.len, g_seq, verbose ? 1 : 0, end_pos });
     log_event(K_LEX, pos, (int64_t(ans.idx) << 32) | (ans.len & 0xffffffff));
     return ans;
 }
